@@ -174,6 +174,7 @@ m("c19-purge-all-addresses", "C19", P, "        for k in list(self.factory.windo
 m("rev-7fa4954-purge-skips-queue", "C11 C12", P, "        for request in list(self.factory.queuePublishTx[self.addr]):\n            if inherited and request.protocol is self:\n                continue\n            if request not in", "        for request in []:\n            if inherited and request.protocol is self:\n                continue\n            if request not in")
 m("rev-c59b799-purge-keeps-alarm", "C13", P, "            if request.alarm is not None:   # sent again on this connection before the purge\n                request.alarm.cancel()\n                request.alarm = None\n", "")
 m("rev-7ff9ac1-refill-without-state-check", "C18", P, "        if self.state is not self.CONNECTED and self.state is not self.CONNECTING:\n            return  # an errback fired just before (e.g. by the purge at CONNACK) may have disconnected\n", "")
+m("rev-2c13727-window-lower-bound", "C20", B, "        if not (1 <= n <= self.MAX_WINDOW):\n", "        if not (0 < n <= self.MAX_WINDOW):\n")
 m("c19-window-from-last-protocol", "C19", P, "        while queue and (not queue[0].msgId or len(self.factory.windowPublish[cnx]) < self._window):", "        while queue and (not queue[0].msgId or len(self.factory.windowPublish[cnx]) < self.factory.protocol._window):")
 m("c19-sub-window-counts-all-addresses", "C19", P, "        if len(self.factory.windowSubscribe[self.addr]) >= self._window:\n", "        if sum(len(w) for w in self.factory.windowSubscribe.values()) >= self._window:\n")
 
